@@ -2,6 +2,7 @@ import Flowjaxv.Proofs.Docs
 import Flowjaxv.Proofs.Rqs
 import Flowjaxv.Proofs.Planar
 import Flowjaxv.Proofs.Triangular
+import Flowjaxv.Proofs.TriangularGen
 /-!
 # C07 — elementary bijections compute their documented functions
 
@@ -205,5 +206,67 @@ theorem triangular_doc_instance :
   simp [Tri.ofRaw, Params.triangularOfRaw, Params.toTriangular, Tri.TriAffine.transform, Tri.matVec,
     ParamsPf.jdot_eq, ParamsPf.softplusRaw_unwrap, List.ofFn_succ, List.zipIdx]
   norm_num
+
+section TriangularGen
+/-! ## TriangularAffine REGENERATED (`Gen/TriangularGen.lean`): the documented function on the generated definitions -/
+
+/-- `triangular_doc` on the GENERATED `transform`: `A x + b` in Mathlib's matrix–vector product -/
+theorem gen_triangular_doc {n : ℕ} {t : TriangularAffine ℝ} (h : TriPf.TriWF n (TriGenPf.toModel t)) (x : Fin n → ℝ) :
+    t.transform (List.ofFn x) = List.ofFn (Matrix.mulVec (TriPf.toMat n t.triangular) x + VecLd.toVec n t.loc) :=
+  TriPf.transform_ofFn h x
+
+/-- `triangular_ctor_doc` on the generated `_to_triangular` / `BijectionReparam.unwrap` / `transform`: with raw diagonal parameters
+`raw`, `A` is `softplus rawᵢ` on the diagonal, `arr`'s entries strictly inside the triangle chosen by `lower`, exactly 0 in the other
+triangle (a `tril(k=0)` or a swapped orientation in the source falsifies `TriGenPf.gen_toTriangular_eq`). -/
+theorem gen_triangular_ctor_doc {n : ℕ} (lower : Bool) (raw : List ℝ) (arr : List (List ℝ)) (loc : List ℝ)
+    (hsq : TriPf.Square n arr) (hr : raw.length = n) (hl : loc.length = n) (x : Fin n → ℝ) :
+    (TriGen.unwrap (TriGen.ofRaw lower raw arr loc)).transform (List.ofFn x)
+      = List.ofFn (Matrix.mulVec (Matrix.of fun (i j : Fin n) =>
+          if j = i then Real.log (1 + Real.exp (raw.getD i 0))
+          else if (if lower then j < i else i < j) then TriPf.entry arr i j else 0) x + VecLd.toVec n loc) := by
+  rw [TriGenPf.gen_transform_eq, TriGenPf.gen_ofRaw_eq lower raw arr loc (TriGenPf.square_rows hsq hr)]
+  exact triangular_ctor_doc lower raw arr loc hsq hr hl x
+
+/-- the generated constructor reproduces its argument: for a square matrix with positive diagonal the unwrapped `triangular` is the
+requested triangle of `arr` INCLUDING its diagonal (`softplus (softplus⁻¹ d) = d`), and `loc` is stored broadcast. -/
+theorem gen_triangular_init_doc {n : ℕ} (loc : List ℝ) (m : List (List ℝ)) (lower : Bool) (hsq : TriPf.Square n m)
+    (hpos : ∀ i, i < n → 0 < TriPf.entry m i i) {s : TriangularAffineStored ℝ}
+    (h : TriangularAffine.init loc (.mat m) lower = .ok s) (i j : ℕ) (hi : i < n) (hj : j < n) :
+    TriPf.entry (TriGen.unwrap s).triangular i j
+      = if j = i then TriPf.entry m i i else if (if lower then j < i else i < j) then TriPf.entry m i j else 0 := by
+  obtain ⟨hs, _, _⟩ := TriGenPf.gen_init_ok loc m lower h
+  have hd : (TriPrims.diag m).length = n := by simp [TriPrims.diag, hsq.1]
+  have e : (TriGen.unwrap s).triangular = (TriGenPf.toModel (TriGen.unwrap s)).triangular := rfl
+  rw [e, hs, TriGenPf.gen_ofRaw_eq lower _ m _ (TriGenPf.square_rows hsq (by simpa using hd))]
+  show TriPf.entry (Params.triangularOfRaw lower _ m) i j = _
+  rw [Params.triangularOfRaw, TriPf.entry_toTriangular lower _ m hsq (by simpa using hd) hi hj]
+  by_cases hji : j = i
+  · subst hji
+    have hlt : j < (TriPrims.diag m).length := by omega
+    have hmj : j < m.length := by rw [hsq.1]; exact hi
+    have e2 : (if (if lower = true then j < j else j < j) then TriPf.entry m j j else 0) = 0 := by cases lower <;> simp
+    rw [if_pos rfl, if_pos rfl, e2, add_zero, List.getD_eq_getElem?_getD, List.getElem?_eq_getElem (by simpa using hlt)]
+    simp only [List.getElem_map, Option.getD_some]
+    have hdj : (TriPrims.diag m)[j] = TriPf.entry m j j := by
+      simp [TriPrims.diag, TriPf.entry, List.getD_eq_getElem?_getD, List.getElem?_eq_getElem hmj]
+    rw [hdj]
+    exact ParamsPf.softplusInit_unwrap (hpos j hi)
+  · simp [hji]
+
+/-- the generated inverse solves the triangular system: `A · inverse(y) + loc = y` -/
+theorem gen_triangular_inverse_doc {n : ℕ} {t : TriangularAffine ℝ} (h : TriPf.TriWF n (TriGenPf.toModel t)) (y : List ℝ)
+    (hy : y.length = n) :
+    List.zipWith (fun a b => a + b) (TriPrims.matVec t.triangular (t.inverse y)) t.loc = y := by
+  rw [TriGenPf.gen_inverse_eq]
+  exact (TriPf.triangular_lawful (C := Unit) h).right y hy ()
+
+/-- non-vacuity, on the generated definitions: raw diagonal `(0, 0)`, `arr = [[9,9],[1,9]]`, `lower = True`, `loc = (5, 7)` -/
+theorem gen_triangular_doc_instance :
+    (TriGen.unwrap (TriGen.ofRaw true [0, 0] [[9, 9], [1, 9]] [(5 : ℝ), 7])).transform (List.ofFn ![1, 1])
+      = [Real.log 2 + 5, 1 + Real.log 2 + 7] := by
+  rw [TriGenPf.gen_transform_eq, TriGenPf.gen_ofRaw_eq true _ _ _ (by simp)]
+  exact triangular_doc_instance
+
+end TriangularGen
 
 end C07
